@@ -89,9 +89,15 @@ def request(rec, kind, layout):
 # ------------------------------------------------------------------------------------------------------------------
 # the real code
 
-def run_impl(backend, layout):
+def run_impl(backend, layout, prior=None):
+    """prior: another backend the SAME DeviceParameters object is loaded from first (a reload must leave exactly the second device's values)"""
     from quantum_gates._utility.device_parameters import DeviceParameters
     dp = DeviceParameters(list(layout))
+    if prior is not None:
+        try:
+            dp.load_from_backend(prior)
+        except Exception:                                    # noqa
+            pass
     try:
         dp.load_from_backend(backend)
     except Exception as e:                                   # noqa
@@ -595,6 +601,22 @@ def _run(ctx, lean, rng, scr):
             native = [g for g in rec["basis"] if g in ("ecr", "cx")]
             if native and any(i > M or j > M for (i, j) in rec["gate2"].get(native[0], {})):
                 pairs_skipped += 1
+    # ---- reload: one DeviceParameters object loaded from a first device, then from a second one with another coupling map
+    loadable = [(s, L, rec, b) for (s, L, fam, rec, b), r in zip(cases, impl) if "ok" in r and s["kind"] in ("fake", "v2")]
+    n_reload = 0
+    for _ in range(120 if ctx.thorough else 30):
+        if len(loadable) < 2:
+            break
+        (s1, L1, rec1, b1), (s2, L2, rec2, b2) = rng.sample(loadable, 2)
+        if b1 is b2 or max(L2) >= rec1["n"]:
+            continue
+        res, dp = run_impl(b2, L2, prior=b1)
+        ctx.count(); n_reload += 1
+        bad, cl, tag = oracle(rec2, s2["kind"], L2, res, dp)
+        if bad:
+            s2r = dict(s2, _prior=s1)
+            fails.append((s2r, L2, "reload", bad + " (the same DeviceParameters object had been loaded from another device before)", cl, "reload-keeps-values-of-the-first-device"))
+    fam_hist["reload"] = n_reload
     t_impl = time.time() - t0
     t0 = time.time()
     model = core.Driver(ctx.pid).batch(reqs)
@@ -701,7 +723,7 @@ def _run(ctx, lean, rng, scr):
         report += fl[:2 if tag else 4]
     cov["oracle_failures_by_defect"] = {str(t): len(fl) for t, fl in by_tag.items()}
     for s, L, fam, bad, cl, tag in report:
-        Ls = shrink_layout(scr, s, L, tag) if len(L) > 1 else L
+        Ls = shrink_layout(scr, s, L, tag) if (len(L) > 1 and "_prior" not in s) else L
         if Ls != L:
             b, rec = build(scr, s)
             res, dp = run_impl(b, Ls)
@@ -734,8 +756,10 @@ def replay(ctx, path):
     scr = Scratch()
     try:
         s, L = rp["spec"], rp["layout"]
+        prior = s.pop("_prior", None)
         b, rec = build(scr, s)
-        res, dp = run_impl(b, L)
+        pb = build(scr, prior)[0] if prior else None
+        res, dp = run_impl(b, L, prior=pb)
         bad, cl, _tag = oracle(rec, s["kind"], L, res, dp)
         print("device:", s.get("name") or s.get("label") or "synthetic", "kind:", s["kind"], "layout:", L)
         print("implementation:", json.dumps(res)[:800])
